@@ -426,6 +426,11 @@ func (c *Context) onCommand(message *messages.NoneArgsCommandMessage) {
 			Type:     reflect.TypeOf(c.actor),
 		})
 	case messages.CommandResumeMailbox:
+		if c.restarting != nil && !c.zombie && atomic.LoadInt32(&c.state) != running {
+			// 正处于重启的终止阶段（例如兄弟节点失败触发的 one-for-all 重启尚未完成时，自身失败的 Resume/优雅指令才到达）：
+			// 此刻恢复邮箱会让排队的普通消息在非运行状态下被当作死信处理；重启完成时 handleRestart 会恢复邮箱，消息将交给新实例
+			return
+		}
 		c.mailbox.Resume()
 		// 通知事件流
 		c.EventStream().Publish(c, ves.ActorMailboxResumedEvent{
